@@ -27,7 +27,7 @@ RULE = (
     "on 3-4-5 directions, mindist in {0, 1e-3..1e4}; (b) seeded random clouds at scales 1e-6..1e8 with coincident data/force points; "
     "(c) dyadic clouds shifted by dyadic offsets (bit-identical Jacobians required); (d) VectorSpline2D with Poisson in [-1,1] incl. "
     "+-1 and mindist in {0, 1e-3..1e4}; (e) Trend degrees 0..6; (f) CheckerBoard with default and explicit wavelengths; (g) Linear / "
-    "Cubic with both rescale settings on isotropic and strongly anisotropic clouds; (h) integer-typed (int32 / int64) query and force coordinates, including values whose squares / powers overflow the integer dtype; (i) life-cycle histories: evaluate, change parameters on the same object (set_params or attribute assignment: CheckerBoard region / amplitude / wavelengths, Spline mindist / forces, VectorSpline2D poisson / mindist, Trend degree, Linear / Cubic rescale between fits, instances of sibling classes with different rescale fitted one after the other), evaluate again; (j) equivalent spellings of option values (rescale as numpy.bool_ / comparison result / 1, 0 / 0-d array; mindist, damping, poisson, degree, amplitude, wavelengths as int / numpy integer / numpy float; region as list / tuple / ndarray of ints or numpy scalars), given positionally, by keyword or through set_params; (k) fitted Spline / VectorSpline2D / Trend / Chain / "
+    "Cubic with both rescale settings on isotropic and strongly anisotropic clouds; (h) integer-typed (int32 / int64) query and force coordinates, including values whose squares / powers overflow the integer dtype; (i) life-cycle histories: evaluate, change parameters on the same object (set_params or attribute assignment: CheckerBoard region / amplitude / wavelengths, Spline mindist / forces, VectorSpline2D poisson / mindist, Trend degree, Linear / Cubic rescale between fits, instances of sibling classes with different rescale fitted one after the other), evaluate again; (j) equivalent spellings of option values (rescale as numpy.bool_ / comparison result / 1, 0 / 0-d array; mindist, damping, poisson, degree, amplitude, wavelengths as int / numpy integer / numpy float; region as list / tuple / ndarray of ints or numpy scalars), given positionally, by keyword or through set_params; (k) extra (ignored) coordinate arrays after easting and northing holding NaN gaps, all NaN, +-inf, integer / bool / float32 dtypes in predict, fit, score, grid, scatter and profile (must equal the two-coordinate call bit for bit and the analytic formula); (l) fitted Spline / VectorSpline2D / Trend / Chain / "
     "Vector / SplineCV through predict, grid, scatter and profile. Parameters are set by hand (unit vectors, random vectors) on unfitted "
     "estimators as well as estimated by fit; queries are 0-d, 1-D, 2-D and 3-D. A monitored evaluation is non-trivial when its kernel "
     "arguments contain a coincident pair or at least one distance in each of (0,1), [1,e) and >= e (spline family), degree >= 2 (Trend), "
@@ -43,62 +43,95 @@ ASSUMPTIONS = [
     "only the numpy engine runs (numba is not installed); float64 Jacobians only (other dtypes are counted as skipped)",
     "queries have easting and northing of equal shape (DESIGN 3(d)); other calls are counted as skipped",
 ]
-FLOORS = {  # ~40 % of what the unchanged tree produces (quick seed 0: 1959/4732/1422/4605/1098/3884/2186/1515/480/260 evaluations, 14916 non-trivial)
-    "quick": {"eval:spline_jacobian": 780, "eval:spline_predict": 1900, "eval:vector_jacobian": 560, "eval:vector_predict": 1800,
-              "eval:trend_jacobian": 440, "eval:trend_predict": 1550, "eval:checkerboard_predict": 870, "eval:scipy_predict": 600,
-              "eval:translation_invariance": 190, "eval:reference_vs_mpmath": 100, "distinct_nontrivial": 5900,
-              "dist:(0,1)": 380000, "dist:[1,e)": 79000, "dist:>=e": 840000, "dist:coincident": 15000, "integer_coordinates:spline_predict:int32": 80, "integer_coordinates:spline_predict:int64": 80,
-              "integer_coordinates:vector_predict:int32": 80, "integer_coordinates:vector_predict:int64": 80, "integer_coordinates:trend_predict:int32": 125,
-              "integer_coordinates:trend_predict:int64": 125, "integer_coordinates:spline_jacobian:int32": 40, "integer_coordinates:vector_jacobian:int64": 40,
-              "integer_coordinates:trend_jacobian:int32": 40, "integer:squares_overflow_the_dtype": 40, "integer:powers_overflow_the_dtype": 25,
-              "history:checkerboard": 16, "history:spline": 16, "history:vector": 16, "history:trend": 16, "history:scipy_rescale_refit": 16, "history:scipy_class_state": 16, "checker:parameters_from_the_workload_record": 112, "history:checker_change=region": 10, "history:checker_change=region+w_east+w_north": 8, "eval:checkerboard_wavelengths": 64,
-              "spelling:amplitude:float": 24, "spelling:amplitude:int": 24, "spelling:amplitude:numpy.float32": 24,
-              "spelling:amplitude:numpy.float64": 24, "spelling:amplitude:numpy.int32": 24, "spelling:amplitude:numpy.int64": 48,
-              "spelling:degree:0-d int array": 24, "spelling:degree:int": 24, "spelling:degree:numpy.int32": 24, "spelling:degree:numpy.int64": 24,
-              "spelling:degree:numpy.intp": 24, "spelling:degree:numpy.uint8": 24, "spelling:given_by=keyword": 40,
-              "spelling:given_by=positional": 40, "spelling:given_by=set_params": 40, "spelling:mindist:float": 24, "spelling:mindist:int": 24,
-              "spelling:mindist:numpy.float32": 24, "spelling:mindist:numpy.float64": 24, "spelling:mindist:numpy.int32": 24,
-              "spelling:mindist:numpy.int64": 24, "spelling:poisson=-1:float": 7, "spelling:poisson=-1:int": 7,
-              "spelling:poisson=-1:numpy.float32": 7, "spelling:poisson=-1:numpy.float64": 7, "spelling:poisson=-1:numpy.int32": 7,
-              "spelling:poisson=-1:numpy.int64": 7, "spelling:poisson=0:float": 7, "spelling:poisson=0:int": 7,
-              "spelling:poisson=0:numpy.float32": 7, "spelling:poisson=0:numpy.float64": 7, "spelling:poisson=0:numpy.int32": 7,
-              "spelling:poisson=0:numpy.int64": 7, "spelling:poisson=1:float": 9, "spelling:poisson=1:int": 9, "spelling:poisson=1:numpy.float32": 9,
-              "spelling:poisson=1:numpy.float64": 9, "spelling:poisson=1:numpy.int32": 9, "spelling:poisson=1:numpy.int64": 9,
-              "spelling:region:float ndarray": 24, "spelling:region:int32 ndarray": 24, "spelling:region:int64 ndarray": 24,
-              "spelling:region:list of int": 24, "spelling:region:list of numpy.float64": 24, "spelling:region:tuple of int": 24,
-              "spelling:region:tuple of numpy.int64": 24, "spelling:rescale=False:0-d array": 12, "spelling:rescale=False:bool": 12,
-              "spelling:rescale=False:comparison": 12, "spelling:rescale=False:int": 12, "spelling:rescale=False:numpy.bool_": 12,
-              "spelling:rescale=False:numpy.int64": 12, "spelling:rescale=True:0-d array": 12, "spelling:rescale=True:bool": 12,
-              "spelling:rescale=True:comparison": 12, "spelling:rescale=True:int": 12, "spelling:rescale=True:numpy.bool_": 12,
-              "spelling:rescale=True:numpy.int64": 12},
-    "thorough": {"eval:spline_jacobian": 15500, "eval:spline_predict": 38000, "eval:vector_jacobian": 11400, "eval:vector_predict": 36500,
-                 "eval:trend_jacobian": 8600, "eval:trend_predict": 31000, "eval:checkerboard_predict": 17600, "eval:scipy_predict": 12300,
-                 "eval:translation_invariance": 3800, "eval:reference_vs_mpmath": 380, "distinct_nontrivial": 119000,
-                 "dist:(0,1)": 8000000, "dist:[1,e)": 1550000, "dist:>=e": 16000000, "dist:coincident": 300000, "integer_coordinates:spline_predict:int32": 1600, "integer_coordinates:spline_predict:int64": 1600,
-                 "integer_coordinates:vector_predict:int32": 1600, "integer_coordinates:vector_predict:int64": 1600, "integer_coordinates:trend_predict:int32": 2500,
-                 "integer_coordinates:trend_predict:int64": 2500, "integer_coordinates:spline_jacobian:int32": 800, "integer_coordinates:vector_jacobian:int64": 800,
-                 "integer_coordinates:trend_jacobian:int32": 800, "integer:squares_overflow_the_dtype": 800, "integer:powers_overflow_the_dtype": 500,
-                 "history:checkerboard": 320, "history:spline": 320, "history:vector": 320, "history:trend": 320, "history:scipy_rescale_refit": 320, "history:scipy_class_state": 320, "checker:parameters_from_the_workload_record": 2240, "history:checker_change=region": 200, "history:checker_change=region+w_east+w_north": 160, "eval:checkerboard_wavelengths": 1280,
-                 "spelling:amplitude:float": 480, "spelling:amplitude:int": 480, "spelling:amplitude:numpy.float32": 480,
-                 "spelling:amplitude:numpy.float64": 480, "spelling:amplitude:numpy.int32": 480, "spelling:amplitude:numpy.int64": 960,
-                 "spelling:degree:0-d int array": 480, "spelling:degree:int": 480, "spelling:degree:numpy.int32": 480,
-                 "spelling:degree:numpy.int64": 480, "spelling:degree:numpy.intp": 480, "spelling:degree:numpy.uint8": 480,
-                 "spelling:given_by=keyword": 800, "spelling:given_by=positional": 800, "spelling:given_by=set_params": 800,
-                 "spelling:mindist:float": 480, "spelling:mindist:int": 480, "spelling:mindist:numpy.float32": 480,
-                 "spelling:mindist:numpy.float64": 480, "spelling:mindist:numpy.int32": 480, "spelling:mindist:numpy.int64": 480,
-                 "spelling:poisson=-1:float": 140, "spelling:poisson=-1:int": 140, "spelling:poisson=-1:numpy.float32": 140,
-                 "spelling:poisson=-1:numpy.float64": 140, "spelling:poisson=-1:numpy.int32": 140, "spelling:poisson=-1:numpy.int64": 140,
-                 "spelling:poisson=0:float": 140, "spelling:poisson=0:int": 140, "spelling:poisson=0:numpy.float32": 140,
-                 "spelling:poisson=0:numpy.float64": 140, "spelling:poisson=0:numpy.int32": 140, "spelling:poisson=0:numpy.int64": 140,
-                 "spelling:poisson=1:float": 180, "spelling:poisson=1:int": 180, "spelling:poisson=1:numpy.float32": 180,
-                 "spelling:poisson=1:numpy.float64": 180, "spelling:poisson=1:numpy.int32": 180, "spelling:poisson=1:numpy.int64": 180,
-                 "spelling:region:float ndarray": 480, "spelling:region:int32 ndarray": 480, "spelling:region:int64 ndarray": 480,
-                 "spelling:region:list of int": 480, "spelling:region:list of numpy.float64": 480, "spelling:region:tuple of int": 480,
-                 "spelling:region:tuple of numpy.int64": 480, "spelling:rescale=False:0-d array": 240, "spelling:rescale=False:bool": 240,
-                 "spelling:rescale=False:comparison": 240, "spelling:rescale=False:int": 240, "spelling:rescale=False:numpy.bool_": 240,
-                 "spelling:rescale=False:numpy.int64": 240, "spelling:rescale=True:0-d array": 240, "spelling:rescale=True:bool": 240,
-                 "spelling:rescale=True:comparison": 240, "spelling:rescale=True:int": 240, "spelling:rescale=True:numpy.bool_": 240,
-                 "spelling:rescale=True:numpy.int64": 240},
+FLOORS = {  # ~40 % of what the unchanged tree produces at quick seed 0 (observed counts are in evidence/C03.json); thorough = 20 x
+    "quick": {
+        "eval:spline_jacobian": 780, "eval:spline_predict": 1900, "eval:vector_jacobian": 560, "eval:vector_predict": 1800,
+        "eval:trend_jacobian": 440, "eval:trend_predict": 1550, "eval:checkerboard_predict": 870, "eval:scipy_predict": 600,
+        "eval:translation_invariance": 190, "eval:reference_vs_mpmath": 100, "distinct_nontrivial": 5900, "dist:(0,1)": 380000, "dist:[1,e)": 79000,
+        "dist:>=e": 840000, "dist:coincident": 15000, "integer_coordinates:spline_predict:int32": 80, "integer_coordinates:spline_predict:int64": 80,
+        "integer_coordinates:vector_predict:int32": 80, "integer_coordinates:vector_predict:int64": 80,
+        "integer_coordinates:trend_predict:int32": 125, "integer_coordinates:trend_predict:int64": 125,
+        "integer_coordinates:spline_jacobian:int32": 40, "integer_coordinates:vector_jacobian:int64": 40,
+        "integer_coordinates:trend_jacobian:int32": 40, "integer:squares_overflow_the_dtype": 40, "integer:powers_overflow_the_dtype": 25,
+        "history:checkerboard": 16, "history:spline": 16, "history:vector": 16, "history:trend": 16, "history:scipy_rescale_refit": 16,
+        "history:scipy_class_state": 16, "checker:parameters_from_the_workload_record": 112, "history:checker_change=region": 10,
+        "history:checker_change=region+w_east+w_north": 8, "eval:checkerboard_wavelengths": 64, "spelling:amplitude:float": 24,
+        "spelling:amplitude:int": 24, "spelling:amplitude:numpy.float32": 24, "spelling:amplitude:numpy.float64": 24,
+        "spelling:amplitude:numpy.int32": 24, "spelling:amplitude:numpy.int64": 48, "spelling:degree:0-d int array": 24, "spelling:degree:int": 24,
+        "spelling:degree:numpy.int32": 24, "spelling:degree:numpy.int64": 24, "spelling:degree:numpy.intp": 24, "spelling:degree:numpy.uint8": 24,
+        "spelling:given_by=keyword": 40, "spelling:given_by=positional": 40, "spelling:given_by=set_params": 40, "spelling:mindist:float": 24,
+        "spelling:mindist:int": 24, "spelling:mindist:numpy.float32": 24, "spelling:mindist:numpy.float64": 24, "spelling:mindist:numpy.int32": 24,
+        "spelling:mindist:numpy.int64": 24, "spelling:poisson=-1:float": 7, "spelling:poisson=-1:int": 7, "spelling:poisson=-1:numpy.float32": 7,
+        "spelling:poisson=-1:numpy.float64": 7, "spelling:poisson=-1:numpy.int32": 7, "spelling:poisson=-1:numpy.int64": 7,
+        "spelling:poisson=0:float": 7, "spelling:poisson=0:int": 7, "spelling:poisson=0:numpy.float32": 7, "spelling:poisson=0:numpy.float64": 7,
+        "spelling:poisson=0:numpy.int32": 7, "spelling:poisson=0:numpy.int64": 7, "spelling:poisson=1:float": 9, "spelling:poisson=1:int": 9,
+        "spelling:poisson=1:numpy.float32": 9, "spelling:poisson=1:numpy.float64": 9, "spelling:poisson=1:numpy.int32": 9,
+        "spelling:poisson=1:numpy.int64": 9, "spelling:region:float ndarray": 24, "spelling:region:int32 ndarray": 24,
+        "spelling:region:int64 ndarray": 24, "spelling:region:list of int": 24, "spelling:region:list of numpy.float64": 24,
+        "spelling:region:tuple of int": 24, "spelling:region:tuple of numpy.int64": 24, "spelling:rescale=False:0-d array": 12,
+        "spelling:rescale=False:bool": 12, "spelling:rescale=False:comparison": 12, "spelling:rescale=False:int": 12,
+        "spelling:rescale=False:numpy.bool_": 12, "spelling:rescale=False:numpy.int64": 12, "spelling:rescale=True:0-d array": 12,
+        "spelling:rescale=True:bool": 12, "spelling:rescale=True:comparison": 12, "spelling:rescale=True:int": 12,
+        "spelling:rescale=True:numpy.bool_": 12, "spelling:rescale=True:numpy.int64": 12, "extras:Spline(hand-set):nan_gaps": 12,
+        "extras:Spline(hand-set):all_nan": 12, "extras:Spline(hand-set):inf": 12, "extras:Spline(hand-set):nan_and_inf": 12,
+        "extras:Spline(hand-set):int32": 12, "extras:Spline(hand-set):bool": 12, "extras:Spline(fitted):nan_gaps": 24,
+        "extras:Spline(fitted):all_nan": 12, "extras:Spline(fitted):inf": 12, "extras:Spline(fitted):nan_and_inf": 12,
+        "extras:Spline(fitted):int32": 12, "extras:Spline(fitted):bool": 12, "extras:VectorSpline2D:nan_gaps": 24,
+        "extras:VectorSpline2D:all_nan": 12, "extras:VectorSpline2D:inf": 12, "extras:VectorSpline2D:nan_and_inf": 12,
+        "extras:VectorSpline2D:int32": 12, "extras:VectorSpline2D:bool": 12, "extras:Trend:nan_gaps": 24, "extras:Trend:all_nan": 12,
+        "extras:Trend:inf": 12, "extras:Trend:nan_and_inf": 12, "extras:Trend:int32": 12, "extras:Trend:bool": 12, "extras:Linear:nan_gaps": 24,
+        "extras:Linear:all_nan": 12, "extras:Linear:inf": 12, "extras:Linear:nan_and_inf": 12, "extras:Linear:int32": 12, "extras:Linear:bool": 12,
+        "extras:Cubic:nan_gaps": 24, "extras:Cubic:all_nan": 12, "extras:Cubic:inf": 12, "extras:Cubic:nan_and_inf": 12, "extras:Cubic:int32": 12,
+        "extras:Cubic:bool": 12, "extras:CheckerBoard:nan_gaps": 12, "extras:CheckerBoard:all_nan": 12, "extras:CheckerBoard:inf": 12,
+        "extras:CheckerBoard:nan_and_inf": 12, "extras:CheckerBoard:int32": 12, "extras:CheckerBoard:bool": 12, "extras:predict": 756,
+        "extras:fit+predict": 60, "extras:score": 36, "extras:grid": 31, "extras:scatter": 28, "extras:profile": 24,
+        "eval:extra_coordinates_ignored": 936,
+    },
+    "thorough": {
+        "eval:spline_jacobian": 15500, "eval:spline_predict": 38000, "eval:vector_jacobian": 11400, "eval:vector_predict": 36500,
+        "eval:trend_jacobian": 8600, "eval:trend_predict": 31000, "eval:checkerboard_predict": 17600, "eval:scipy_predict": 12300,
+        "eval:translation_invariance": 3800, "eval:reference_vs_mpmath": 380, "distinct_nontrivial": 119000, "dist:(0,1)": 8000000,
+        "dist:[1,e)": 1550000, "dist:>=e": 16000000, "dist:coincident": 300000, "integer_coordinates:spline_predict:int32": 1600,
+        "integer_coordinates:spline_predict:int64": 1600, "integer_coordinates:vector_predict:int32": 1600,
+        "integer_coordinates:vector_predict:int64": 1600, "integer_coordinates:trend_predict:int32": 2500,
+        "integer_coordinates:trend_predict:int64": 2500, "integer_coordinates:spline_jacobian:int32": 800,
+        "integer_coordinates:vector_jacobian:int64": 800, "integer_coordinates:trend_jacobian:int32": 800, "integer:squares_overflow_the_dtype": 800,
+        "integer:powers_overflow_the_dtype": 500, "history:checkerboard": 320, "history:spline": 320, "history:vector": 320, "history:trend": 320,
+        "history:scipy_rescale_refit": 320, "history:scipy_class_state": 320, "checker:parameters_from_the_workload_record": 2240,
+        "history:checker_change=region": 200, "history:checker_change=region+w_east+w_north": 160, "eval:checkerboard_wavelengths": 1280,
+        "spelling:amplitude:float": 480, "spelling:amplitude:int": 480, "spelling:amplitude:numpy.float32": 480,
+        "spelling:amplitude:numpy.float64": 480, "spelling:amplitude:numpy.int32": 480, "spelling:amplitude:numpy.int64": 960,
+        "spelling:degree:0-d int array": 480, "spelling:degree:int": 480, "spelling:degree:numpy.int32": 480, "spelling:degree:numpy.int64": 480,
+        "spelling:degree:numpy.intp": 480, "spelling:degree:numpy.uint8": 480, "spelling:given_by=keyword": 800, "spelling:given_by=positional": 800,
+        "spelling:given_by=set_params": 800, "spelling:mindist:float": 480, "spelling:mindist:int": 480, "spelling:mindist:numpy.float32": 480,
+        "spelling:mindist:numpy.float64": 480, "spelling:mindist:numpy.int32": 480, "spelling:mindist:numpy.int64": 480,
+        "spelling:poisson=-1:float": 140, "spelling:poisson=-1:int": 140, "spelling:poisson=-1:numpy.float32": 140,
+        "spelling:poisson=-1:numpy.float64": 140, "spelling:poisson=-1:numpy.int32": 140, "spelling:poisson=-1:numpy.int64": 140,
+        "spelling:poisson=0:float": 140, "spelling:poisson=0:int": 140, "spelling:poisson=0:numpy.float32": 140,
+        "spelling:poisson=0:numpy.float64": 140, "spelling:poisson=0:numpy.int32": 140, "spelling:poisson=0:numpy.int64": 140,
+        "spelling:poisson=1:float": 180, "spelling:poisson=1:int": 180, "spelling:poisson=1:numpy.float32": 180,
+        "spelling:poisson=1:numpy.float64": 180, "spelling:poisson=1:numpy.int32": 180, "spelling:poisson=1:numpy.int64": 180,
+        "spelling:region:float ndarray": 480, "spelling:region:int32 ndarray": 480, "spelling:region:int64 ndarray": 480,
+        "spelling:region:list of int": 480, "spelling:region:list of numpy.float64": 480, "spelling:region:tuple of int": 480,
+        "spelling:region:tuple of numpy.int64": 480, "spelling:rescale=False:0-d array": 240, "spelling:rescale=False:bool": 240,
+        "spelling:rescale=False:comparison": 240, "spelling:rescale=False:int": 240, "spelling:rescale=False:numpy.bool_": 240,
+        "spelling:rescale=False:numpy.int64": 240, "spelling:rescale=True:0-d array": 240, "spelling:rescale=True:bool": 240,
+        "spelling:rescale=True:comparison": 240, "spelling:rescale=True:int": 240, "spelling:rescale=True:numpy.bool_": 240,
+        "spelling:rescale=True:numpy.int64": 240, "extras:Spline(hand-set):nan_gaps": 240, "extras:Spline(hand-set):all_nan": 240,
+        "extras:Spline(hand-set):inf": 240, "extras:Spline(hand-set):nan_and_inf": 240, "extras:Spline(hand-set):int32": 240,
+        "extras:Spline(hand-set):bool": 240, "extras:Spline(fitted):nan_gaps": 480, "extras:Spline(fitted):all_nan": 240,
+        "extras:Spline(fitted):inf": 240, "extras:Spline(fitted):nan_and_inf": 240, "extras:Spline(fitted):int32": 240,
+        "extras:Spline(fitted):bool": 240, "extras:VectorSpline2D:nan_gaps": 480, "extras:VectorSpline2D:all_nan": 240,
+        "extras:VectorSpline2D:inf": 240, "extras:VectorSpline2D:nan_and_inf": 240, "extras:VectorSpline2D:int32": 240,
+        "extras:VectorSpline2D:bool": 240, "extras:Trend:nan_gaps": 480, "extras:Trend:all_nan": 240, "extras:Trend:inf": 240,
+        "extras:Trend:nan_and_inf": 240, "extras:Trend:int32": 240, "extras:Trend:bool": 240, "extras:Linear:nan_gaps": 480,
+        "extras:Linear:all_nan": 240, "extras:Linear:inf": 240, "extras:Linear:nan_and_inf": 240, "extras:Linear:int32": 240,
+        "extras:Linear:bool": 240, "extras:Cubic:nan_gaps": 480, "extras:Cubic:all_nan": 240, "extras:Cubic:inf": 240,
+        "extras:Cubic:nan_and_inf": 240, "extras:Cubic:int32": 240, "extras:Cubic:bool": 240, "extras:CheckerBoard:nan_gaps": 240,
+        "extras:CheckerBoard:all_nan": 240, "extras:CheckerBoard:inf": 240, "extras:CheckerBoard:nan_and_inf": 240, "extras:CheckerBoard:int32": 240,
+        "extras:CheckerBoard:bool": 240, "extras:predict": 15120, "extras:fit+predict": 1200, "extras:score": 720, "extras:grid": 620,
+        "extras:scatter": 560, "extras:profile": 480, "eval:extra_coordinates_ignored": 18720,
+    },
 }
 JOBS = {"quick": 1, "thorough": 16}
 CASE_TIMEOUT_S = 180
@@ -107,8 +140,8 @@ MPMATH_BUDGET = {"quick": 260, "thorough": 60}  # per process (thorough runs 16 
 
 def plan(tier):
     if tier == "quick":
-        return collections.OrderedDict(ladder=360, pairs=480, translation=240, vector=420, trend=480, checker=420, scipy=420, fitted=300, integer=210, history=240, spelling=300)
-    return collections.OrderedDict(ladder=7200, pairs=9600, translation=4800, vector=8400, trend=9600, checker=8400, scipy=8400, fitted=6000, integer=4200, history=4800, spelling=6000)
+        return collections.OrderedDict(ladder=360, pairs=480, translation=240, vector=420, trend=480, checker=420, scipy=420, fitted=300, integer=210, history=240, spelling=300, extras=210)
+    return collections.OrderedDict(ladder=7200, pairs=9600, translation=4800, vector=8400, trend=9600, checker=8400, scipy=8400, fitted=6000, integer=4200, history=4800, spelling=6000, extras=4200)
 
 
 # ----------------------------------------------------------------------
@@ -1362,7 +1395,132 @@ def _stream_spelling(run, rng, verde, index):
                             "compared": "predict / jacobian of an estimator whose option value is spelled as numpy scalar / int / 0-d array / other container"})
 
 
-_STREAMS = {"spelling": _stream_spelling, "history": _stream_history, "integer": _stream_integer, "ladder": _stream_ladder, "pairs": _stream_pairs, "translation": _stream_translation, "vector": _stream_vector,
+def _extra_classes(rng, shape):
+    """Extra (ignored) coordinate arrays of the query shape: NaN gaps, all NaN, +-inf, integer / bool / float32 dtypes, ordinary values."""
+    size = int(np.prod(shape)) if shape else 1
+    gaps = rng.normal(size=size) * 1e3
+    gaps[rng.random(size) < 0.4] = np.nan
+    gaps[int(rng.integers(0, size))] = np.nan
+    infs = rng.normal(size=size)
+    infs[::2] = np.inf
+    infs[int(rng.integers(0, size))] = -np.inf
+    mixed = np.where(rng.random(size) < 0.5, np.nan, np.where(rng.random(size) < 0.5, np.inf, -np.inf))
+    out = [("nan_gaps", gaps), ("all_nan", np.full(size, np.nan)), ("inf", infs), ("nan_and_inf", mixed), ("int32", rng.integers(-5, 5, size).astype("int32")),
+           ("int64_huge", np.full(size, np.iinfo("int64").max)), ("bool", rng.random(size) < 0.5), ("float32_nan", gaps.astype("float32")), ("finite", rng.normal(size=size) * 1e3)]
+    return [(name, arr.reshape(shape)) for name, arr in out]
+
+
+def _same(a, b):
+    a, b = (a if isinstance(a, tuple) else (a,)), (b if isinstance(b, tuple) else (b,))
+    return len(a) == len(b) and all(np.shape(x) == np.shape(y) and np.array_equal(np.asarray(x), np.asarray(y), equal_nan=True) for x, y in zip(a, b))
+
+
+def _stream_extras(run, rng, verde, index):
+    """
+    Coordinates after easting and northing are documented as ignored: a call with extra coordinate arrays holding NaN / inf / other dtypes
+    must return what the two-coordinate call returns (measured bit-identical on the unchanged tree) and the monitors on predict judge it
+    against the analytic formula as usual (finite wherever easting and northing are finite).
+    """
+    kind = index % 7
+    name = ("Spline(hand-set)", "Spline(fitted)", "VectorSpline2D", "Trend", "Linear", "Cubic", "CheckerBoard")[kind]
+    n = int(rng.integers(6, 50))
+    scale = gen.log_uniform(rng, 1e-1, 1e5)
+    east, north = gen.cloud(rng, n, scale=scale, offset_factor=float(rng.choice([0.0, 1.0])))
+    data = gen.smooth_field(rng, east, north)
+    q = int(rng.choice([6, 8, 12]))
+    tri = np.array([rng.choice(n, 3, replace=False) for _ in range(q)])
+    wts = rng.dirichlet(np.ones(3) * 2, q)
+    qe, qn = (east[tri] * wts).sum(axis=1), (north[tri] * wts).sum(axis=1)
+    region = (float(east.min()), float(east.max()), float(north.min()), float(north.max()))
+    fit_extra = rng.normal(size=n)
+    fit_extra[rng.random(n) < 0.5] = np.nan
+    fit_extra[0] = np.inf
+    refit = None  # the same estimator fitted with an extra coordinate full of NaN / inf: the fit ignores it as well
+    try:
+        if kind == 0:
+            m = min(n, int(rng.integers(1, 8)))
+            est = _hand_spline(verde, float(rng.choice([0.0, 0.0, 1e-2 * scale])), east[:m].copy(), north[:m].copy(), rng.normal(size=m))
+        elif kind == 1:
+            damping = float(10 ** rng.uniform(-6, 0))
+            est = verde.Spline(damping=damping).fit((east, north), data)
+            refit = verde.Spline(damping=damping).fit((east, north, fit_extra), data)
+        elif kind == 2:
+            args = {"poisson": float(rng.uniform(-1, 1)), "mindist": float(0.1 * scale), "damping": float(10 ** rng.uniform(-6, 0))}
+            data2 = (data, gen.smooth_field(rng, east, north))
+            est = verde.VectorSpline2D(**args).fit((east, north), data2)
+            refit = verde.VectorSpline2D(**args).fit((east, north, fit_extra, fit_extra[::-1].copy()), data2)
+        elif kind == 3:
+            degree = int(rng.integers(0, 4))
+            est = verde.Trend(degree).fit((east, north), data)
+            refit = verde.Trend(degree).fit((east, north, fit_extra), data)
+        elif kind in (4, 5):
+            cls = verde.Linear if kind == 4 else verde.Cubic
+            rescale = bool(rng.random() < 0.5)
+            est = cls(rescale=rescale).fit((east, north), data)
+            refit = cls(rescale=rescale).fit((east, north, fit_extra), data)
+        else:
+            est = verde.synthetic.CheckerBoard(amplitude=float(rng.normal() * 100), region=region)
+    except Exception as exc:  # noqa: BLE001
+        if "qhull" in (type(exc).__name__ + str(exc)).lower():
+            run.count("refused:qhull")
+            return
+        raise
+
+    def judge(what, cls_name, base, got, detail):
+        run.evaluated("extra_coordinates_ignored")
+        run.count("extras:%s:%s" % (name, cls_name))
+        run.count("extras:" + what)
+        if not _same(base, got):
+            run.violation("extra_coordinates_ignored", "%s.%s with extra coordinate(s) of class %s differs from the call with easting and northing only"
+                          % (name, what, cls_name), dict(detail, base=[np.asarray(b) for b in (base if isinstance(base, tuple) else (base,))],
+                                                          got=[np.asarray(g) for g in (got if isinstance(got, tuple) else (got,))]),
+                          key="extras:%s:%s" % (what, name))
+        else:
+            run.mark_nontrivial("extras", name, what, cls_name, qe, qn)
+
+    shape = (q,) if index % 3 else (2, q // 2)
+    a, b = qe.reshape(shape), qn.reshape(shape)
+    base = est.predict((a, b))
+    classes = _extra_classes(rng, shape)
+    for k, (cls_name, extra) in enumerate(classes):
+        detail = {"gridder": repr(est)[:200], "easting": a, "northing": b, "extra": extra, "extra_class": cls_name}
+        coords = (a, b, extra) if k % 2 == 0 else (a, b, extra, classes[(k + 3) % len(classes)][1])
+        judge("predict", cls_name, base, est.predict(coords), detail)
+    if refit is not None:
+        judge("fit+predict", "nan_gaps", base, refit.predict((a, b)), {"gridder": repr(est)[:200], "fit_extra": fit_extra})
+        if kind not in (4, 5):
+            s0, s1 = est.score((east, north), data if kind != 2 else data2), est.score((east, north, fit_extra), data if kind != 2 else data2)
+            run.evaluated("extra_coordinates_ignored")
+            run.count("extras:score")
+            if not (s0 == s1 or (np.isnan(s0) and np.isnan(s1))):
+                run.violation("extra_coordinates_ignored", "%s.score with a NaN / inf extra coordinate gives %r, without it %r" % (name, s1, s0),
+                              {"gridder": repr(est)[:200], "fit_extra": fit_extra}, key="extras:score:" + name)
+    # grid / scatter / profile forward extra_coords to predict
+    pick = int(rng.integers(0, 3))
+    extra_values = [[np.nan], [np.inf, np.nan], [-np.inf], [7]][int(rng.integers(0, 4))]
+    if pick == 0:
+        g0 = est.grid(region=region, shape=(4, 5))
+        g1 = est.grid(region=region, shape=(4, 5), extra_coords=extra_values)
+        names = [v for v in g0.data_vars]
+        judge("grid", "extra_coords=%r" % (extra_values,), tuple(g0[v].values for v in names), tuple(g1[v].values for v in names), {"extra_coords": extra_values, "region": list(region)})
+    elif pick == 1:
+        seed = int(rng.integers(0, 1000))
+        t0 = est.scatter(region=region, size=15, random_state=seed)
+        t1 = est.scatter(region=region, size=15, random_state=seed, extra_coords=extra_values)
+        cols = [c for c in t0.columns if c not in ("easting", "northing")]
+        judge("scatter", "extra_coords=%r" % (extra_values,), tuple(t0[c].values for c in cols), tuple(t1[c].values for c in cols), {"extra_coords": extra_values})
+    else:
+        p1, p2 = (region[0], region[2]), (region[1], region[3])
+        t0 = est.profile(point1=p1, point2=p2, size=11)
+        t1 = est.profile(point1=p1, point2=p2, size=11, extra_coords=extra_values)
+        cols = [c for c in t0.columns if c not in ("easting", "northing", "distance")]
+        judge("profile", "extra_coords=%r" % (extra_values,), tuple(t0[c].values for c in cols), tuple(t1[c].values for c in cols), {"extra_coords": extra_values})
+    run.sample("extras", {"gridder": name, "query_shape": list(shape), "classes": [c[0] for c in classes],
+                          "compared": "predict / fit+predict / score / grid / scatter / profile with NaN, inf, integer, bool extra coordinates against the two-coordinate call (bit-identical) "
+                                      "and, through the predict monitors, against the analytic formula"})
+
+
+_STREAMS = {"extras": _stream_extras, "spelling": _stream_spelling, "history": _stream_history, "integer": _stream_integer, "ladder": _stream_ladder, "pairs": _stream_pairs, "translation": _stream_translation, "vector": _stream_vector,
             "trend": _stream_trend, "checker": _stream_checker, "scipy": _stream_scipy, "fitted": _stream_fitted}
 
 
